@@ -1,7 +1,8 @@
 """C05 - transactions are all-or-nothing and isolated."""
 from checks import storefam
 
-PREDS = {"txn-atomic", "txn-outcome", "txn-state", "txn-results", "txn-single-index"}
+PREDS = {"txn-atomic", "txn-outcome", "txn-state", "txn-results", "txn-single-index",
+         "txn-fault-atomic", "txn-fault-reported", "fault-atomic", "fault-reported"}
 DOC = {
     "txn-atomic": "a transaction that reports any error leaves the abstract state unchanged AND the byte-level dump of every "
                   "table row and index row unchanged, fires no memdb watch and publishes no stream event",
@@ -10,6 +11,11 @@ DOC = {
     "txn-state": "a committed transaction's post-state equals the fold of its ops (read-your-writes)",
     "txn-results": "returned KV results equal the specification's",
     "txn-single-index": "every row changed by a committed transaction carries the transaction's index",
+    "txn-fault-atomic / fault-atomic": "fault point (spec action CommitFails): about one command in fourteen of the random histories commits into a "
+                                       "failing change-event generation step (verif hook state.VerifFailChangeProcessing, inside txn.Commit before "
+                                       "the memdb commit); the transaction (resp. single write command, the same commit path) leaves every table "
+                                       "and index row, every watch and the event stream untouched",
+    "txn-fault-reported / fault-reported": "... and reports the failure (a command that would have changed nothing may answer as usual)",
 }
 
 
